@@ -17,7 +17,7 @@ ASSUMPTIONS = [
 ]
 MANIFEST = {'text': 'proof (all normal paths of the stage function) of: no message-carrying value is dropped un-drained, none is cloned, no lossy container operation, '
                     'final flush drains the heap before Ok, the stage writes no DltMessage field, heap comparator is key-based. Ordering under bounded delay is not decided.'
-                    ' Added (ordering half, necessary conditions only): the heap key is capped at the reception time and the release threshold is never below the configured minimum delay. Added: control requests are keyed by their reception time (every other key definition lies behind !is_ctrl_request()).'}
+                    ' Added (ordering half, necessary conditions only): the heap key is capped at the reception time and the release threshold is never below the configured minimum delay. Added: control requests are keyed by their reception time (every other key definition lies behind !is_ctrl_request()). Added: the lifecycle-start cache of the sorter is keyed by the lifecycle id itself. Added: the reception time is the key only for control requests or as the cap of a larger calculated time. Added: the heap element\'s order is decided, for every ordering of the fields it compares, to be exactly (calculated time, message index) - Ord::cmp and the PartialOrd methods the heap uses. Added: the only thing the sorter takes from a lifecycle table entry is its start_time field, verbatim.'}
 
 
 def stage_bodies(F):
@@ -100,9 +100,16 @@ def run(F, chk):
     check_buffer_is_multiset(stages, O4)
     O5 = chk.rule('O5', 'inside the receive loop the sorter pops a buffered message only under the release comparison key + threshold < reception time')
     check_release_only_by_age(F, stages, O5)
+    O8 = chk.rule('O8', 'the reception time is the heap key only for control requests (or as the cap of a larger calculated time): every other message is keyed by lifecycle start + timestamp')
     O6 = chk.rule('O6', 'the heap key of a control request is its reception time: every other definition of the key lies on the false edge of is_ctrl_request()')
     for b in stages:
-        check_ctrl_request_key(b, O6, F)
+        check_ctrl_request_key(b, O6, F, O8)
+    O7 = chk.rule('O7', 'the lifecycle-start cache of the sorter is keyed by the lifecycle id itself (no arithmetic on the key: distinct ids never share a slot)')
+    check_start_time_cache(F, stages, O7)
+    O10 = chk.rule('O10', 'the only thing the sorter takes from a lifecycle table entry is its `start_time` field, read verbatim (no derived start such as resume_start_time(), no other field, no method of Lifecycle)')
+    check_lifecycle_start_verbatim(F, stages, O10)
+    O9 = chk.rule('O9', 'the order of the heap element is, for every ordering of the fields it compares, the order by (calculated time, message index) and by nothing else (decided over the finite model of field orderings; Ord::cmp and every PartialOrd method the heap uses)')
+    check_heap_order(F, stages, O9)
     O3 = chk.rule('O3', 'the release threshold of the sorter is, on every path, the configured minimum delay, its previous value, or minimum + x (never below the minimum)')
     check_threshold_floor(F, stages, O3)
 
@@ -436,7 +443,7 @@ def check_release_only_by_age(F, stages, O5):
 # ---------------------------------------------------------------------------------------------
 # O6: control requests are keyed by their reception time
 
-def check_ctrl_request_key(b, O6, F=None):
+def check_ctrl_request_key(b, O6, F=None, O8=None):
     """"sorted by lifecycle start + timestamp, reception time for control requests": a control request is injected by the logger,
     its timestamp field (if any) is not on the sender's clock.  Every definition of the value that becomes the heap key is
     either the reception time of the message, or lies behind the false edge of `is_ctrl_request()`."""
@@ -489,7 +496,18 @@ def check_ctrl_request_key(b, O6, F=None):
                 out.append(('result of ' + p, x.loc(d.sp)))
                 continue
             if d.rv['k'] in ('use', 'cast'):
-                judge_operand(x, xcfg, xE, xE0, Operand(d.rv['o']), seen, out, d.sp)
+                o_ = Operand(d.rv['o'])
+                e_ = xE.operand(o_) if o_.place is not None else None
+                if isinstance(e_, tuple) and e_[0] in ('place', 'proj') and show(e_).endswith('.reception_time_us'):
+                    # the converse: the reception time itself is the key only for control requests - or as the cap of a larger value
+                    kn = guards.known(xcfg, xE0, bi)
+                    is_ctrl = any(truth is True and isinstance(c, tuple) and c[0] == 'call' and c[1].endswith('::is_ctrl_request') for (c, truth, D) in kn)
+                    is_cap = any(truth is True and isinstance(c, tuple) and c[0] == 'bin' and ((c[1] in ('Gt', 'Ge') and 'reception_time_us' in show(xE.operand_expr(c[3]) if hasattr(xE, 'operand_expr') else c[3])) or
+                                                                                               (c[1] in ('Lt', 'Le') and 'reception_time_us' in show(c[2]))) for (c, truth, D) in guards.known(xcfg, xE, bi))
+                    if not (is_ctrl or is_cap):
+                        out2.append((show(e_)[:70], x.loc(d.sp)))
+                    continue
+                judge_operand(x, xcfg, xE, xE0, o_, seen, out, d.sp)
                 continue
             out.append((show(xE.rvalue(d.rv))[:70], x.loc(d.sp)))
 
@@ -504,9 +522,16 @@ def check_ctrl_request_key(b, O6, F=None):
             judge_local(x, xcfg, xE, xE0, o.place.l, seen, out)
             return
         out.append((show(e)[:70], x.loc(sp)))
+    out2 = []
     for l in keys:
         bad = []
         judge_local(b, cfg, E, E0, l, set(), bad)
+        if out2 and O8 is not None:
+            val, where = out2[0]
+            O8.violation(('non-ctrl-keyed-by-reception', b.path), 'the sort key is set to the reception time (%s) on a path that is neither limited to control requests nor the cap of a larger value: '
+                         'messages of the sender clock domain must be keyed by lifecycle start + timestamp (a message without timestamp by the lifecycle start)' % where, where=where)
+        elif O8 is not None:
+            O8.ok(sample={'reception_time_as_key': 'only under is_ctrl_request() or as the cap'})
         n = counted[0]
         O6.sites += n
         if bad:
@@ -516,3 +541,147 @@ def check_ctrl_request_key(b, O6, F=None):
         else:
             O6.ok(sample={'key_definitions_examined': n, 'each': 'reception time, min()/copy of such values, or only for messages that are not control requests'})
     O6.floor('definitions of the heap key in the sorter', n, 2)
+
+
+# ---------------------------------------------------------------------------------------------
+# O7: the lifecycle start cache is keyed by the id
+
+def check_lifecycle_start_verbatim(F, stages, O10):
+    """key = lifecycle start + timestamp: "lifecycle start" is the `start_time` the lifecycle stage published.  Any other
+    notion of start (the display order's resume_start_time(), end_time() - duration, ..) differs for some lifecycles only
+    (resumed ones) and shifts the keys of exactly those messages against parallel ECUs."""
+    import json
+    n = 0
+    for b in stages:
+        for x in [b] + list(F.closures_of(b.path)):
+            for blk in x.blocks:
+                if blk.cleanup:
+                    continue
+                for s_ in blk.stmts:
+                    if s_.k != 'assign':
+                        continue
+                    for m in re.finditer(r'"n": "(\w+)", "o": "adlt::lifecycle::Lifecycle"', json.dumps(s_.d)):
+                        n += 1
+                        O10.sites += 1
+                        O10.fn(x.path)
+                        if m.group(1) == 'start_time' and s_.rv['k'] in ('use', 'cast', 'ref') and s_.place.is_local:
+                            O10.ok(sample={'reads': 'Lifecycle.start_time', 'at': x.loc(s_.sp)})
+                        else:
+                            O10.violation(('lifecycle-field-other-than-start-time', x.path, m.group(1)), 'the sorter touches the field `%s` of a lifecycle at %s (only a plain read of start_time is expected)' % (m.group(1), x.loc(s_.sp)), where=x.loc(s_.sp))
+                t = blk.term
+                if t.k == 'call' and any(re.match(r'^&?(mut )?adlt::lifecycle::Lifecycle$', a.ty or '') for a in t.args):
+                    n += 1
+                    O10.sites += 1
+                    O10.fn(x.path)
+                    import comparators
+                    gf = comparators.getter_fields(F, t.callee.resolved or t.callee.path)
+                    if gf and gf[-1][1] == 'start_time' and gf[-1][0] == 'adlt::lifecycle::Lifecycle' and len(gf) == 1:
+                        O10.ok(sample={'reads': 'Lifecycle.start_time through the accessor %s' % t.callee.path.split('::')[-1], 'at': x.loc(t.sp)})
+                    else:
+                        O10.violation(('lifecycle-start-derived', x.path, t.callee.path.split('::')[-1]), 'the sorter calls %s on a lifecycle at %s: the sort key must be built from the published start_time itself, a derived start differs for some lifecycles only (e.g. resumed ones) and misorders their messages against parallel ECUs' %
+                                      (t.callee.path, x.loc(t.sp)), where=x.loc(t.sp))
+    O10.floor('reads of a lifecycle table entry in the sorter', n, 1)
+
+
+def check_heap_order(F, stages, O9):
+    """ties in original order: the heap element's order must be the lexicographic order by (calculated time, index of the
+    message).  The comparator touches its arguments only through comparisons, so it is a function of the finite tuple of
+    field relations; ordmodel evaluates it for every such tuple and the table is compared with the required order.  Any
+    further key in front of the index (timestamp, reception time, ..) reorders messages that tie on the calculated time."""
+    import ordmodel
+    elem = None
+    for b in stages:
+        for l in b.locals:
+            m = re.search(r'(adlt::[\w:]*SortedDltMessage)', l['t']) if l['cm'] else None
+            if m and re.match(r'std::collections::|std::vec::Vec<', l['t']):
+                elem = m.group(1)
+    adt = F.adts.get(elem) if elem else None
+    if adt is None:
+        O9.floor('heap element type of the sorter', 0, 1)
+        return
+    flds = adt['variants'][0]['fields']
+    msgf = [f['n'] for f in flds if f['t'] == 'adlt::dlt::DltMessage']
+    keyf = [f['n'] for f in flds if f['t'] == 'u64']
+    if len(msgf) != 1 or len(keyf) != 1:
+        O9.violation(('heap-element-shape', elem), 'the heap element %s is no longer (message, one u64 key): the required order cannot be named' % elem)
+        return
+    keys = [(keyf[0],), (msgf[0], 'index')]
+    n_ord = n_pord = 0
+    for b in F.order:
+        if (b.impl_self or '') != elem or b.impl_trait not in ('std::cmp::Ord', 'std::cmp::PartialOrd'):
+            continue
+        nm = b.path.split('::')[-1]
+        pred = {'lt': 'Lt', 'le': 'Le', 'gt': 'Gt', 'ge': 'Ge'}.get(nm)
+        if nm not in ('cmp', 'partial_cmp') and pred is None:
+            continue        # max/min/clamp: not used by the heap
+        O9.fn(b.path)
+        O9.sites += 1
+        if nm == 'cmp':
+            n_ord += 1
+        elif nm == 'partial_cmp':
+            n_pord += 1
+        try:
+            table = ordmodel.decision_table(F, b, result='bool' if pred else 'ord')
+        except ordmodel.Undecided as e:
+            O9.violation(('heap-order-undecided', b.path), 'the order %s of the heap element leaves the ordering model (%s): it is not a function of field-by-field comparisons of the two elements' % (b.path, e), where=b.loc(None))
+            continue
+        O9.paths += len(table)
+        bad = ordmodel.lexicographic_violations(table, keys, pred)
+        if bad:
+            val, res, exp, why = bad[0]
+            O9.violation(('heap-order-not-time-then-index', b.path),
+                         '%s does not order by (%s, %s.index): for %s it returns %s (%s) — messages that tie on the calculated time leave the sorter in another order than they entered' %
+                         (b.path, keyf[0], msgf[0], ', '.join('%s %s' % ('.'.join(p), '<=>'[r + 1]) for p, r in val) or 'every input', res, why), where=b.loc(None),
+                         witness={'table': [[['.'.join(p), r] for p, r in v] + [res_] for v, res_ in table][:30]})
+        else:
+            O9.ok(sample={'function': b.path, 'orderings_decided': len(table), 'order': '(%s, %s.index)' % (keyf[0], msgf[0])})
+    O9.floor('Ord::cmp of the heap element', n_ord, 1)
+    O9.floor('PartialOrd::partial_cmp of the heap element', n_pord, 1)
+
+
+def check_start_time_cache(F, stages, O7):
+    """"sorted by lifecycle start + timestamp": the sorter caches the start time per lifecycle id in a closure id -> u64.  The cached
+    value belongs to exactly that id only if every container access in the closure whose key depends on the id uses the id
+    verbatim (map.get(&id) / insert(id, ..) / read handle get_one(&id)).  A computed slot (id - first_id, id % n, a hash
+    truncated to an index) lets two lifecycles share one entry: the second gets the first one's start time and its
+    messages are sorted into the wrong place."""
+    from expr import ExprBuilder, show
+    from facts import Operand
+    from prov import Prov
+    n = 0
+    for b in stages:
+        for cl in F.closures_of(b.path):
+            at = cl.arg_types()
+            if not (len(at) == 2 and at[1] in ('u32', '&u32') and cl.ret_type() == 'u64' and cl.closure_of == b.path):
+                continue
+            O7.fn(cl.path)
+            cfg = CFG(cl)
+            E = ExprBuilder(cfg, fold_named=True)
+            pr = Prov(cfg)
+            pname = cl.name_of(2) or 'arg2'
+            sites = []
+            for blk in cl.blocks:
+                if blk.cleanup:
+                    continue
+                t = blk.term
+                if t.k == 'call' and re.search(r'::(get|get_mut|insert|entry|remove|contains_key|get_one|index|index_mut|get_or_insert_with)$', t.callee.path) and len(t.args) >= 2:
+                    sites.append((blk, t.args[1], t.callee.path.split('::')[-1]))
+                if t.k == 'assert' and t.d['ak'] == 'BoundsCheck':
+                    sites.append((blk, Operand(t.d['ops'][1]), 'index'))
+            for (blk, key, what) in sites:
+                toks = pr.operand(key, at=blk.i)
+                if not any(tk[0] == 'param' and tk[1] == pname for tk in toks):
+                    continue
+                n += 1
+                O7.sites += 1
+                e = E.operand(key)
+                while isinstance(e, tuple) and (e[0] == 'ref' or (e[0] in ('proj', 'place') and len(e) > 2 and all(p_ == '*' for p_ in e[2:])) or (e[0] == 'proj' and len(e) == 2)):
+                    e = e[1] if e[0] != 'place' else ('place', e[1])
+                    if e[0] == 'place' and len(e) == 2:
+                        break
+                if e == ('place', pname):
+                    O7.ok(sample={'closure': cl.path, 'access': what, 'key': 'the lifecycle id itself', 'at': cl.loc(blk.term.sp)})
+                else:
+                    O7.violation(('cache-key-computed-from-id', b.path, what), 'the lifecycle-start cache of the sorter is accessed (%s) at %s with the key %s computed from the lifecycle id: two different ids can map to one slot and then share a start time, '
+                                 'so the messages of one of them are sorted by the wrong lifecycle start' % (what, cl.loc(blk.term.sp), show(E.operand(key))[:70]), where=cl.loc(blk.term.sp))
+    O7.floor('id-keyed accesses in the lifecycle-start cache closure of the sorter', n, 2)
